@@ -144,7 +144,9 @@ Inductive op :=
 | HasLocalSub (e : eaddr) (f : N) (r : faddr)
 | HasLocalBind (e : eaddr) (f : N) (r : faddr)
 | ReadData (e : eaddr) (f fn : N)
-| Resolve (p : N) (dev : option N).                               (* RemoteDeviceForSki / RemoteDeviceForAddress *)
+| Resolve (p : N) (dev : option N)                                (* RemoteDeviceForSki / RemoteDeviceForAddress *)
+| LocalUnsubscribe (e : eaddr) (f : N) (r : faddr)                (* FeatureLocal.RemoveRemoteSubscription *)
+| LocalUnbind (e : eaddr) (f : N) (r : faddr).                    (* FeatureLocal.RemoveRemoteBinding *)
 
 (* ------------------------------------------------------------------ lookups *)
 Definition find_lfeat (s : st) (e : eaddr) (f : option N) : option lfeat :=
@@ -509,6 +511,30 @@ Definition local_request (s : st) (sub : bool) (e : eaddr) (f : N) (r : faddr) :
       end
   end.
 
+(* RemoveRemoteSubscription / RemoveRemoteBinding: the delete call goes to the device with the
+   named address, every recorded request with that address is forgotten (no role test) *)
+Definition del_client_ref (sub : bool) (r : faddr) (f : lfeat) : lfeat :=
+  {| lf_ent := lf_ent f; lf_id := lf_id f; lf_type := lf_type f; lf_role := lf_role f; lf_ops := lf_ops f;
+     lf_data := lf_data f;
+     lf_subs := if sub then filter (fun x => negb (eqb_faddr x r)) (lf_subs f) else lf_subs f;
+     lf_binds := if sub then lf_binds f else filter (fun x => negb (eqb_faddr x r)) (lf_binds f) |}.
+
+Definition local_unrequest (s : st) (sub : bool) (e : eaddr) (f : N) (r : faddr) : st * list obs :=
+  match find_lfeat s e (Some f) with
+  | None => (s, [ONone])
+  | Some lf =>
+      match fa_dev r with
+      | None => (s, [ORetB false])
+      | Some d =>
+          match peer_by_addr s d with
+          | None => (s, [ORetB false])
+          | Some pe =>
+              (upd_lfeat s e f (del_client_ref sub r),
+               [OCall (p_ski pe) (if sub then 3 else 4) (nm_addr (Some LOCAL_DEV)) (nm_addr (Some d)); ORetB true])
+          end
+      end
+  end.
+
 (* RemoveRemoteDevice + RemoveRemoteDeviceConnection *)
 Definition remove_all_for_device (s : st) (pe : peer) : st * list obs :=
   let '(s1, ev1) := fold_left (fun acc en =>
@@ -711,6 +737,8 @@ Definition step (s : st) (o : op) : st * list obs :=
                   | Some d => match peer_by_addr s d with Some _ => true | None => false end
                   | None => false
                   end)])
+  | LocalUnsubscribe e f r => local_unrequest s true e f r
+  | LocalUnbind e f r => local_unrequest s false e f r
   end.
 
 Fixpoint run (s : st) (ops : list op) : st * list (op * list obs) :=
